@@ -1042,32 +1042,32 @@ def driver_obligations(P):
     obs = []
     nsteps = alg.sym("n_steps", pos=True, integer=True)
     site_ts = "src/bldfm/interface.py::run_bldfm_timeseries"
-    for use_cache, flux in ((False, alg.sym("user_flux")), (True, alg.sym("user_flux")), (False, None)):
-        cfg = _driver_config(P, use_cache)
+    for use_cache, flux, full in ((False, alg.sym("user_flux"), False), (True, alg.sym("user_flux"), False), (False, None, False), (True, alg.sym("user_flux"), True)):
+        cfg = _driver_config(P, use_cache, z0=full)
         tower = cfg.attrs["towers"].items[0]
         log = []
         res = CM.run_paths(P, "bldfm.interface", "run_bldfm_timeseries", [cfg, tower], {"surface_flux": flux}, stubs={"bldfm.interface.run_bldfm_single": _single_stub(log), "bldfm.utils.ideal_source": _ideal_source_stub(P)})
         rets = [r for r in res if r.kind == "return"]
         ok1 = len(res) == 1 and len(rets) == 1
-        fl_tag = "" if flux is not None else ", no flux supplied"
+        fl_tag = ("" if flux is not None else ", no flux supplied") + (", roughness length and time labels configured" if full else "")
         obs.extend(step_state_obligations(res, site_ts, "timeseries, use_cache=%s%s" % (use_cache, fl_tag)))
         obs.append(req_ob("R-SERIAL", site_ts, "one straight path (use_cache=%s%s)" % (use_cache, fl_tag), ok1, detail=str([(r.kind, r.raise_desc, r.path) for r in res])[:300]))
         if ok1:
             cname = "None" if not use_cache else "bldfm.cache.GreensFunctionCache"
             ok, why = _unk(_expect_series(tower, nsteps, flux, cname, cfg, P), rets[0].value)
             obs.append(req_ob("R-SERIAL", site_ts, "returns the single runs of this tower for met_index = 0..n_timesteps-1, in time order, with %s (use_cache=%s)" % (
-                "the supplied flux" if flux is not None else "the source each single run builds for itself from the configuration when none is supplied", use_cache), ok, detail=why, key={"driver": "timeseries", "flux": flux is not None}))
+                "the supplied flux" if flux is not None else "the source each single run builds for itself from the configuration when none is supplied", "%s%s" % (use_cache, fl_tag)), ok, detail=why, key={"driver": "timeseries", "flux": flux is not None}))
             cfgs = [(b["config"] is cfg or _rest_of_config(b["config"]) == _rest_of_config(cfg)) and b["tower"] is tower for b, _, _, _ in log]
-            obs.append(req_ob("R-SERIAL", site_ts, "every single run gets the driver's own configuration and tower", bool(cfgs) and all(cfgs)))
+            obs.append(req_ob("R-SERIAL", site_ts, "every single run gets the driver's own configuration and tower (use_cache=%s%s)" % (use_cache, fl_tag), bool(cfgs) and all(cfgs)))
     # multitower
     site_mt = "src/bldfm/interface.py::run_bldfm_multitower"
-    for flux in (alg.sym("user_flux"), None):
-        cfg = _driver_config(P)
+    for flux, full in ((alg.sym("user_flux"), False), (None, False), (alg.sym("user_flux"), True)):
+        cfg = _driver_config(P, z0=full)
         log = []
         res = CM.run_paths(P, "bldfm.interface", "run_bldfm_multitower", [cfg], {"surface_flux": flux}, stubs={"bldfm.interface.run_bldfm_single": _single_stub(log), "bldfm.utils.ideal_source": _ideal_source_stub(P)})
         rets = [r for r in res if r.kind == "return"]
         ok1 = len(res) == 1 and len(rets) == 1 and isinstance(rets[0].value, Tup) and rets[0].value.kind == "dict"
-        fl_tag = "" if flux is not None else " (no flux supplied)"
+        fl_tag = ("" if flux is not None else " (no flux supplied)") + (" (roughness length and time labels configured)" if full else "")
         obs.extend(step_state_obligations(res, site_mt, "multitower" + fl_tag))
         obs.append(req_ob("R-SERIAL", site_mt, "returns a mapping" + fl_tag, ok1))
         towers = cfg.attrs["towers"].items
